@@ -90,6 +90,9 @@ def general(draw, max_classes=4, max_nodes=7, max_props=4, max_stmts=30, bnodes=
         # class IRIs whose local name holds characters that are reserved in prefixed names (DBpedia / Wikipedia style)
         odd = ["Musician,_solo", "Rock&Roll_Band", "What?", "A(b)", "x=y", "it's", "semi;colon", "plus+", "star*", "bang!"]
         classes = [["iri", NS[0] + odd[j % len(odd)]] if (c[0] == "iri" and j % 2 == 0) else c for j, c in enumerate(classes)]
+    if "slash_classes" in quirks:
+        # class IRIs ending in '/' next to the same IRI without it (http://ex.org/C0 and http://ex.org/C0/)
+        classes = [["iri", classes[j - 1][1] + "/"] if (j % 2 == 1 and c[0] == "iri" and classes[j - 1][0] == "iri") else c for j, c in enumerate(classes)]
     if "same_local_classes" in quirks:
         # two classes with one local name in different namespaces (foaf:Person / schema:Person)
         classes = [["iri", NS[j % len(NS)] + "C%d" % (j // 2)] if c[0] == "iri" else c for j, c in enumerate(classes)]
@@ -334,6 +337,8 @@ def harmless_extras(draw):
         cfg["infer_numeric_types_for_untyped_literals"] = False
     elif k == 6:
         cfg["instances_cap"] = 1000       # a cap not smaller than every class changes nothing
+    elif k == 7:
+        cfg["decimals"] = draw(st.sampled_from([1, 2, 3]))      # printed precision only
     return cfg
 
 
